@@ -221,7 +221,7 @@ def handle (st : DState) : String → P (DState × String)
     pure (st, s!"{encCps out.2} {encBool r.2.inAlt} {encBool r.2.mouse} {encBool r.2.bp}")
   | "dumb" => do
     let evs ← pList pDumbEv
-    pure (st, encList (fun e => encCps (dumbStep Gen.C10.dumbPromptMaps M e)) evs)
+    pure (st, encList (fun e => encCps (dumbStep M e)) evs)
   | "printplain" => do
     let c ← pOptNat; let frs ← pList pFrag
     let t := printPlain frs
